@@ -91,6 +91,14 @@ func runC10(a common.Args) {
 	} else {
 		rc.TraceID = id
 	}
+	// (0') one scripted trace for service charge 1.0 and values above 2^53, where float64(value) may exceed
+	// the value itself
+	id++
+	if a.Only == 0 || a.Only == id {
+		g.chargeOver(a, id)
+	} else {
+		rc.TraceID = id
+	}
 	// (1) the corner cases enumerated by TLC on StakePool.tla (Gen_StakePool)
 	for _, b := range common.Behaviours(a.Behav) {
 		id++
@@ -169,6 +177,20 @@ func (g *c10) zeroSubset(a common.Args, id int) {
 	g.run(id, "zero-subset", c, ops)
 }
 
+// chargeOver: service charge ratio 1.0 and values whose float64 image is larger than the value.
+func (g *c10) chargeOver(a common.Args, id int) {
+	r := common.TraceRand(a.Seed, id)
+	c := &c10Case{cnum: 1, cden: 1, pools: []c10Pool{{"d1", 5, 0}, {"d2", 7, 0}}}
+	ops := []c10Op{
+		{Kind: "all", V: 1<<53 + 3, Seed: r.Int63()},
+		{Kind: "randn", V: 1<<53 + 3, N: 2, Seed: r.Int63()},
+		{Kind: "all", V: 1<<53 + 1, Seed: r.Int63()},
+		{Kind: "all", V: 4e18 - 1, Seed: r.Int63()},
+		{Kind: "randn", V: 1<<60 + 129, N: 1, Seed: r.Int63()},
+	}
+	g.run(id, "charge-over", c, ops)
+}
+
 func pick(r *rand.Rand, xs ...uint64) uint64 { return xs[r.Intn(len(xs))] }
 
 func (g *c10) random(a common.Args, id int) {
@@ -238,7 +260,8 @@ func (g *c10) random(a common.Args, id int) {
 		}
 		switch {
 		case big && r.Intn(2) == 0:
-			op.V = pick(r, 1<<53+3, 1<<53+1, 1<<62, 1<<63-1, 1<<63+5, 1<<64-1, 1e15, 9007199254740993)
+			// up to the whole token supply (4e18 units): a larger reward cannot exist
+			op.V = pick(r, 1<<53+3, 1<<53+1, 1<<53+5, 1<<60+1, 4e18, 4e18-1, 1e15, 3e18+7, 1<<40+uint64(r.Intn(1000)))
 		default:
 			op.V = pick(r, 0, 1, 2, 3, uint64(n), uint64(n)+1, 10, 100, 101, 9999, 30000, uint64(r.Intn(30000)), uint64(r.Intn(50)))
 			if n > 0 && r.Intn(8) == 0 {
@@ -441,6 +464,7 @@ func (g *c10) step(balances cstate.StateContextI, sp *stakepool.StakePool, c *c1
 		"sum_diff": clampBig(sumDiff), "charge_dev": clampBig(chargeDev), "prop_dev": clampBig(propDev),
 		"tol_hi": int64(op.V >> 48), "n_credited": nCred,
 		"zero_subset": zeroSubset, "no_delegate_credited": sumDeleg.Sign() == 0,
+		"charge_over": cInc.Cmp(V) > 0,
 	}
 	class := "paid"
 	switch {
@@ -463,6 +487,9 @@ func (g *c10) step(balances cstate.StateContextI, sp *stakepool.StakePool, c *c1
 	}
 	if zeroSubset {
 		class += "/zs"
+	}
+	if cInc.Cmp(V) > 0 {
+		class += "/co"
 	}
 	if isBig {
 		class += "/big"
